@@ -263,6 +263,8 @@ def judge(ctx, prop_id, progs, cases, defs):
         # verdicts
         if c.oracle is None:
             cnt["oracle_inconclusive"] += 1
+            if len(ctx.cov.setdefault("inconclusive_samples", [])) < 3:
+                ctx.cov["inconclusive_samples"].append({"program": c.prog.text, "goal": c.text})
             continue
         cnt["oracle_true" if c.oracle else "oracle_false"] += 1
         nontrivial = bool(rg.children(c.atom[1][0])) or c.atom[1][0][0] == "adt"
